@@ -655,7 +655,117 @@ def check_zone_construction(repo, rep):
     rep.floor('fixed-offset zone constructions', n, 1)
 
 
+FLOAT_PROJECTIONS = ('total_seconds', 'timestamp')
+ORDERING = ('#operator_<', '#operator_<=', '#operator_>', '#operator_>=')
+
+
+def check_ordering_is_exact(repo, rep, uni):
+    """R20e: datetimes and timespans are ordered with microsecond
+    resolution at any date.  A float number of seconds cannot resolve a
+    microsecond far from 1970 (and near year 1), so the ordering overloads
+    must not pass their operands through total_seconds() / timestamp() /
+    float() / true division before comparing them."""
+    mod = repo.module(DT)
+    n = 0
+    for name in ORDERING:
+        for ov in uni.reg.by_name(name, 'default'):
+            fi = ov.func
+            if fi.module.name != DT:
+                continue
+            n += 1
+            bad = []
+            for r in model.walk_shallow(fi.node):
+                if not (isinstance(r, ast.Return) and r.value is not None):
+                    continue
+                v = norm.inline_simple_calls(repo, mod, norm.subst_locals(
+                    fi.node, r.value, only_pure=False))
+                for x in ast.walk(v):
+                    if isinstance(x, ast.Call) and isinstance(
+                            x.func, ast.Attribute) and \
+                            x.func.attr in FLOAT_PROJECTIONS:
+                        bad.append(x)
+                    elif isinstance(x, ast.Call) and isinstance(
+                            x.func, ast.Name) and x.func.id == 'float':
+                        bad.append(x)
+                    elif isinstance(x, ast.BinOp) and isinstance(
+                            x.op, ast.Div):
+                        bad.append(x)
+            rep.ob('R20e', '%s[%s]' % (fi.key, name), not bad,
+                   'the %s overload compares a float projection of its '
+                   'operands (`%s`): a float number of seconds does not '
+                   'resolve microseconds far from 1970, so two instants a '
+                   'few microseconds apart order as equal while `=` still '
+                   'tells them apart' % (
+                       name[10:], model.norm(bad[0]) if bad else ''),
+                   loc=mod.loc(bad[0] if bad else fi.node),
+                   construct=model.norm(bad[0]) if bad else '')
+    rep.floor('date/time ordering overloads', n, 8)
+
+
+def _fieldwise_rebuilds(repo, mod, fn_node):
+    out = []
+    for c in ast.walk(fn_node):
+        if not isinstance(c, ast.Call):
+            continue
+        d = repo.resolve(mod, c.func)
+        if d not in ('datetime.datetime', 'datetime.time'):
+            tgt = repo.lookup(d) if d else None
+            if not (isinstance(tgt, tuple) and tgt[0] == 'const' and
+                    repo.resolve(tgt[1], tgt[2]) in (
+                        'datetime.datetime', 'datetime.time')):
+                continue
+        srcs = {}
+        for a in list(c.args) + [k.value for k in c.keywords]:
+            if isinstance(a, ast.Attribute) and a.attr in (
+                    'year', 'month', 'day', 'hour', 'minute', 'second',
+                    'microsecond'):
+                srcs.setdefault(model.norm(a.value), set()).add(a.attr)
+        # fold disambiguates a wall-clock *time*: only copies that carry
+        # the time of day over are affected (date(dt) truncates, it is not)
+        if any(len(v) >= 3 and 'hour' in v for v in srcs.values()) and not any(
+                k.arg == 'fold' for k in c.keywords):
+            out.append(c)
+    return out
+
+
+def check_no_fieldwise_rebuild(repo, rep):
+    """R20f: a datetime is never rebuilt from its fields: the constructor
+    does not carry `fold` (PEP 495), so a host value in the repeated hour
+    at the end of daylight saving time silently becomes the first
+    occurrence, an hour earlier.  Use value.replace(...) / astimezone."""
+    n = 0
+    for modname in (DT, 'yaql.language.yaqltypes'):
+        mod = repo.module(modname)
+        for fi in mod.functions.values():
+            if fi.parent_func is not None:
+                continue
+            n += 1
+            for c in _fieldwise_rebuilds(repo, mod, fi.node):
+                rep.ob('R20f', fi.key, False,
+                       '`%s` rebuilds a datetime from the fields of '
+                       'another one and drops `fold`: an aware host value '
+                       'in the repeated hour of a DST change denotes an '
+                       'instant one hour earlier afterwards (utc, '
+                       'timestamp and differences change)' %
+                       model.norm(c)[:80], loc=mod.loc(c),
+                       construct=model.norm(c)[:120])
+    from sa.rules import c09
+    fm = c09.load_fixture(repo, 'c20_fixture.py')
+    flagged = {f.name for f in fm.functions.values()
+               if _fieldwise_rebuilds(repo, fm, f.node)}
+    rep.ob('R20f', 'fixtures/c20_fixture.py/positive-control',
+           flagged == {'bad_rebuild_fieldwise'},
+           'positive control: expected bad_rebuild_fieldwise flagged and '
+           'the ok_* functions silent; flagged %s' % sorted(flagged))
+    rep.ob('R20f', 'date-time-modules', True, '%d functions scanned' % n,
+           nontrivial=True)
+
+
 def run(repo, rep):
+    rep.rule('R20e', 'ORDERING-IS-EXACT: the datetime / timespan ordering '
+             'overloads compare without a float projection of the operands')
+    rep.rule('R20f', 'NO-FIELDWISE-REBUILD: no datetime is constructed from '
+             'the year/month/day/... fields of another one (drops fold)')
     rep.rule('R20a', 'INSTANT-PRESERVATION: utc(dt) is the instant W0 - off '
              'at offset zero; timestamp(dt) is (W0 - off) - epoch; '
              'offset(dt) is dt\'s own offset (zero when naive); '
@@ -682,3 +792,5 @@ def run(repo, rep):
     rep.rule('R20d', 'ZONE-FROM-TOTAL-OFFSET: tz.tzoffset / timezone are '
              'built from the total seconds of the offset timespan')
     check_zone_construction(repo, rep)
+    check_ordering_is_exact(repo, rep, uni)
+    check_no_fieldwise_rebuild(repo, rep)
